@@ -162,7 +162,7 @@ static void run_case(uint64_t idx)
 		if (!is_xz && (a == LZMA_FULL_FLUSH || a == LZMA_FULL_BARRIER)) a = LZMA_SYNC_FLUSH;
 		if (a == LZMA_SYNC_FLUSH && !sync_supported_action) a = is_xz ? LZMA_FULL_FLUSH : LZMA_RUN;
 		seg_act[i] = a;
-		seg_upd[i] = vrng_chance(&r, 1, 4) ? 1 + (int)vrng_below(&r, 3) : 0;  // 1 legal update, 2 illegal ids, 3 invalid lc/lp
+		seg_upd[i] = vrng_chance(&r, 1, 4) ? 1 + (int)vrng_below(&r, 4) : 0;  // 1 legal update, 2 illegal ids, 3 invalid lc/lp, 4 chain refused only when the encoder initialises it
 	}
 	gen_data(&r, &c.in, total, -1, c.cfg.lzma.dict_size);
 	hx_sample("c12 enc=%s cfg=%s total=%zu segs=%u threads=%u bs=%" PRIu64 " can_sync=%d", e_names[c.e], c.cfg.desc, total, nseg, c.threads, c.block_size, can_sync);
@@ -172,6 +172,14 @@ static void run_case(uint64_t idx)
 		if ((c.e == E_STREAM || c.e == E_MT) && vrng_chance(&r, 2, 3)) {
 			gen_cfg(&r, &intrcfg, (unsigned)VCFG_XZ & ~(unsigned)VCFG_ALLOW_BCJ, 1u << 18); intrcfg_valid = true;
 			c.intr_kind = 1; c.intr_filters = intrcfg.filters;
+		} else if (c.e == E_STREAM && vrng_chance(&r, 1, 3)) {
+			// a chain that passes every pre-check (IDs, order, memory usage) and is refused only by the filter's own
+			// initialisation: ARM BCJ with a start offset that is not a multiple of four
+			static lzma_options_bcj bad_bcj = { .start_offset = 2 };
+			intropt = c.cfg.lzma; if (intropt.preset_dict) { intropt.preset_dict = NULL; intropt.preset_dict_size = 0; }
+			intrf[0].id = LZMA_FILTER_ARM; intrf[0].options = &bad_bcj;
+			intrf[1].id = LZMA_FILTER_LZMA2; intrf[1].options = &intropt; intrf[2].id = LZMA_VLI_UNKNOWN; intrf[2].options = NULL;
+			c.intr_kind = 3; c.intr_filters = intrf;
 		} else if (c.e != E_ALONE && c.e != E_MT && chain_last_is_lzma2(c.cfg.filters)) {
 			memcpy(intrf, c.cfg.filters, sizeof(intrf)); intropt = c.cfg.lzma;
 			intropt.lc = vrng_below(&r, 5); intropt.lp = vrng_below(&r, 5 - intropt.lc); intropt.pb = vrng_below(&r, 5);
@@ -180,6 +188,7 @@ static void run_case(uint64_t idx)
 		}
 		// mostly within the first calls (Stream Header / first Block Header being copied out), sometimes anywhere
 		c.intr_at = vrng_chance(&r, 3, 4) ? vrng_below(&r, 40) : vrng_below(&r, 3000);
+		if (c.intr_kind == 3 && vrng_chance(&r, 1, 2)) c.intr_at = 0;   // before the first lzma_code() call
 	}
 	lzma_ret ret;
 	switch (c.e) {
@@ -215,7 +224,11 @@ static void run_case(uint64_t idx)
 		hx_eval();
 		if (c.intr_done && c.intr_kind > 0) {
 			// (applied once; a refused change must leave the encoder usable: the rest of the script is the test)
-			hist_add(&c, "{call %" PRIu64 ": %s at in=%zu out=%zu -> %s}", c.intr_at, c.intr_kind == 1 ? "new chain" : "lc/lp/pb", c.intr_fed, c.intr_out, lzma_ret_name(c.intr_ret));
+			hist_add(&c, "{call %" PRIu64 ": %s at in=%zu out=%zu -> %s}", c.intr_at, c.intr_kind == 1 ? "new chain" : (c.intr_kind == 3 ? "chain refused at init" : "lc/lp/pb"), c.intr_fed, c.intr_out, lzma_ret_name(c.intr_ret));
+			if (c.intr_kind == 3) {
+				hx_count("midrun_init_refused_chain", 1);
+				if (c.intr_ret == LZMA_OK) { hx_violation("C12", "init-refused-chain-accepted|stream", idx, "lzma_filters_update accepted [ARM start_offset=2, LZMA2] at call %" PRIu64 "; cfg=%s; script %s", c.intr_at, c.cfg.desc, c.hist); c.failed = true; }
+			} else
 			if (c.intr_ret == LZMA_OK) {
 				hx_count(c.intr_kind == 1 ? "midrun_chain_update_accepted" : "midrun_lclppb_update_accepted", 1);
 				if (c.intr_kind == 1) { cur = &intrcfg; can_sync = true; }
@@ -289,7 +302,22 @@ static void run_case(uint64_t idx)
 				newf[cur->nfilters - 1].options = &newopt;
 				ur = lzma_filters_update(&c.strm, newf); what = "lclppb-after-sync";
 				if (ur == LZMA_OK) hist_add(&c, "{upd lc%u lp%u pb%u}", newopt.lc, newopt.lp, newopt.pb);
-			} else if (u == 2) {
+			} else if (u == 4 && c.e == E_STREAM && (a == LZMA_FULL_FLUSH || a == LZMA_FULL_BARRIER)) {
+				// between Blocks: (sometimes an accepted change first, then) a chain that only the filter's own
+				// initialisation refuses; the encoder must stay usable with the chain it had
+				static lzma_options_bcj bad_bcj = { .start_offset = 2 };
+				if (vrng_chance(&r, 1, 2)) {
+					if (newcfg_valid && nold < 16) oldcfgs[nold++] = newcfg;
+					gen_cfg(&r, &newcfg, (unsigned)VCFG_XZ & ~(unsigned)VCFG_ALLOW_BCJ, 1u << 18); newcfg_valid = true;
+					if (lzma_filters_update(&c.strm, newcfg.filters) == LZMA_OK) { can_sync = true; cur = &newcfg; hist_add(&c, "{upd chain %s}", newcfg.desc); if (c.intr_kind == 2 && !c.intr_done) c.intr_kind = 0; }
+				}
+				newopt = cur->lzma; if (newopt.preset_dict) { newopt.preset_dict = NULL; newopt.preset_dict_size = 0; }
+				newf[0].id = LZMA_FILTER_ARM; newf[0].options = &bad_bcj;
+				newf[1].id = LZMA_FILTER_LZMA2; newf[1].options = &newopt; newf[2].id = LZMA_VLI_UNKNOWN; newf[2].options = NULL;
+				ur = lzma_filters_update(&c.strm, newf); what = "refused-at-init";
+				hx_count("init_refused_chain_between_blocks", 1);
+				if (ur == LZMA_OK) { hx_violation("C12", "init-refused-chain-accepted|stream", idx, "lzma_filters_update accepted [ARM start_offset=2, LZMA2] between Blocks; script %s", c.hist); c.failed = true; break; }
+			} else if (u == 2 || u == 4) {
 				// different filter IDs where only option changes are allowed, or an invalid chain
 				static lzma_options_delta od = { .type = LZMA_DELTA_TYPE_BYTE, .dist = 3 };
 				if (a == LZMA_SYNC_FLUSH) {
